@@ -437,3 +437,12 @@ def describe(tier):
         bounds=dict(depth="1-2 quick, 1-3 thorough"),
         exhaustive=True,
         assumptions=["np.loadtxt parses the %.18e columns exactly (round-trip of IEEE doubles)"])
+
+
+_describe_base = describe
+
+
+def describe(tier):     # noqa: F811 - the base description plus what later rounds added to the space
+    d = _describe_base(tier)
+    d["rule"] = d["rule"] + " " + 'Further azimuthal roots: sets in which a rejection with a bounded range is refused half-way through the azimuths (explicit rows: every window of azimuth 1 peaks inside the range, their mean curve does not).'
+    return d
